@@ -1,6 +1,7 @@
 import ScVerif.Base.Line
 import ScVerif.C18.Time
 import ScVerif.C18.Mode
+import ScVerif.C18.Seg64
 /-! Driver handler for C18: parses one request line, runs the model, prints the canonical answer. -/
 namespace ScVerif.C18
 open ScVerif.Line
@@ -91,6 +92,9 @@ def showOptSeg : Option Seg → String
 def showMode (m : Mode) : String :=
   (match m.start with | none => "-" | some s => toString s) ++ "@" ++ showSegs m.segs
 
+def showOptSegs (l : List (Option Seg)) : String :=
+  if l.isEmpty then "e" else ",".intercalate (l.map showOptSeg)
+
 def showOptMode : Option Mode → String
   | none => "nil"
   | some m => showMode m
@@ -100,16 +104,16 @@ def handleSeg (toks : List String) : Option String :=
   | ["active", d, l] => do
     let d ← parseInt? d
     let l ← parseSegs? l
-    let r := activeAt d l
+    let r := activeAt64 d l
     pure (toString r.1 ++ "|" ++ toString r.2)
   | ["magat", d, l] => do
     let d ← parseInt? d
     let l ← parseSegs? l
-    let r := magnitudeAt d l
+    let r := magnitudeAt64 d l
     pure (toString r.1 ++ "|" ++ showBool r.2)
   | ["dur", l] => do
     let l ← parseSegs? l
-    let r := duration l
+    let r := duration64 l
     pure (toString r.1 ++ "|" ++ showBool r.2)
   | ["max", l] => do
     let l ← parseSegs? l
@@ -117,7 +121,7 @@ def handleSeg (toks : List String) : Option String :=
   | ["maxafter", d, l] => do
     let d ← parseInt? d
     let l ← parseSegs? l
-    pure (toString (maxAfter d l))
+    pure (toString (maxAfter64 d l))
   | ["summag", l] => do
     let l ← parseSegs? l
     pure (toString (sumMagnitude l))
@@ -129,10 +133,10 @@ def handleSeg (toks : List String) : Option String :=
   | ["shift", d, l] => do
     let d ← parseInt? d
     let l ← parseSegs? l
-    pure (showSegs (shift d l))
+    pure (showOptSegs (shift64 d l))
   | ["sum", ls] => do
     let ls ← parseSegLists? ls
-    pure (showSegs (sumGo ls))
+    pure (showSegs (sum64 ls))
   | ["mactive", t, m] => do
     let t ← parseInt? t
     let m ← parseMode? m
@@ -156,6 +160,16 @@ def handleSeg (toks : List String) : Option String :=
     let d ← parseInt? d
     let m ← parseMode? m
     pure (showMode (modeShift d m))
+  | ["mminat", t, ms] => do
+    let t ← parseInt? t
+    let ms ← parseModes? ms
+    match modeMinAt t ms with
+    | none => pure "nil"
+    | some (k, g) =>
+      -- the returned mode depends on the map iteration order when several modes share the minimum
+      -- (C18_minAt_mode_depends_on_order): the index is part of the answer only when it is unique
+      let n := ms.countP (fun m => (modeMagnitudeAt t m).1 = g)
+      pure (toString g ++ "|" ++ (if n = 1 then toString k else "tie"))
   | ["msum", ms] => do
     let ms ← parseModes? ms
     pure (showOptMode (modeSum ms))
